@@ -512,6 +512,30 @@ func (sh *shard) segmentURIs(path string) []string {
 	return u
 }
 
+// hlsSegmentNow requests a segment the stream lists right now (age 0 = newest).
+// Frames published a moment ago may still be on their way through the
+// demuxer / muxer goroutines, so the window can move between listing and GET:
+// "404" is then not an authorization outcome and the request is repeated with a
+// fresh listing (bounded).
+func (sh *shard) hlsSegmentNow(path string, age int, cred httpCred) (obs, string) {
+	deadline := time.Now().Add(serveBound)
+	for {
+		uris := sh.segmentURIs(path)
+		if len(uris) == 0 {
+			return obs{Note: "machinery: no segments listed"}, ""
+		}
+		i := len(uris) - 1 - age
+		if i < 0 {
+			i = 0
+		}
+		o := sh.hlsSegment(uris[i], cred)
+		if o.Status != 404 || time.Now().After(deadline) {
+			return o, uris[i]
+		}
+		time.Sleep(time.Millisecond)
+	}
+}
+
 // hlsSegmentListed: GET of a segment URI exactly as a playlist listed it (it
 // carries the token the playlist was asked with).
 func (sh *shard) hlsSegmentListed(uri string) obs {
@@ -603,7 +627,7 @@ func (sh *shard) rootToken(t evid.TB) string {
 
 // rtspAuth says how one RTSP request authenticates.
 type rtspAuth struct {
-	Kind string `json:"kind"` // good | none | wrongpw | stalenonce | basic | ghost
+	Kind string `json:"kind"` // good | none | wrongpw | oldpw | stalenonce | basic | ghost
 	Name string `json:"name,omitempty"`
 	Pass string `json:"pass,omitempty"`
 }
@@ -611,7 +635,7 @@ type rtspAuth struct {
 func (sh *shard) authHeader(c *rtspc.Client, a rtspAuth, method, u string) map[string]string {
 	_, realm, nonce := c.Challenge()
 	switch a.Kind {
-	case "good":
+	case "good", "oldpw":
 		return map[string]string{"Authorization": rtspc.Digest(a.Name, a.Pass, realm, nonce, method, u)}
 	case "wrongpw":
 		return map[string]string{"Authorization": rtspc.Digest(a.Name, a.Pass+"x", realm, nonce, method, u)}
